@@ -75,7 +75,8 @@ class _Instrumented(object):
     def __repr__(self):
         return "<%s ident=%r beat=%r>" % (type(self).__name__, self.ident, self.beat)
 
-    def _setup(self, ident, fail_after, fail_kind, beat, idle=False, churn=False):
+    def _setup(self, ident, fail_after, fail_kind, beat, idle=False, churn=False, stubborn=False):
+        self.stubborn = stubborn
         self.ident = ident
         self.fail_after = fail_after
         self.fail_kind = fail_kind
@@ -150,6 +151,12 @@ def _make_run(flavour):
             return self._end()
         except cancelled:
             log("Cancelled", self.ident)
+            if flavour == "asyncio" and getattr(self, "stubborn", False):
+                # flush state first: the first request to stop is absorbed, the service gives in to the next one
+                try:
+                    await asyncio.sleep(3600)
+                except asyncio.CancelledError:
+                    pass
             log("CleanupDone", self.ident)
             raise
     return run
@@ -182,10 +189,10 @@ def _mk_pool(flavour, flavour_mod):
     class SPool(PlainPool):
         FLAVOUR = flavour
 
-        def __init__(self, ident=0, fail_after=None, fail_kind=None, beat=0.02, idle=False, churn=False, slow=0):
+        def __init__(self, ident=0, fail_after=None, fail_kind=None, beat=0.02, idle=False, churn=False, slow=0, stubborn=False):
             _probe(ident, slow)
             self._demand = 0.0
-            _Instrumented._setup(self, ident, fail_after, fail_kind, beat, idle, churn)
+            _Instrumented._setup(self, ident, fail_after, fail_kind, beat, idle, churn, stubborn)
 
         _end = _Instrumented._end
         __repr__ = _Instrumented.__repr__
@@ -199,10 +206,10 @@ def _mk_deco(flavour, flavour_mod):
     class SDeco(PoolDecorator):
         FLAVOUR = flavour
 
-        def __init__(self, target, ident=0, fail_after=None, fail_kind=None, beat=0.02, idle=False, churn=False, slow=0):
+        def __init__(self, target, ident=0, fail_after=None, fail_kind=None, beat=0.02, idle=False, churn=False, slow=0, stubborn=False):
             _probe(ident, slow)
             super().__init__(target)
-            _Instrumented._setup(self, ident, fail_after, fail_kind, beat, idle, churn)
+            _Instrumented._setup(self, ident, fail_after, fail_kind, beat, idle, churn, stubborn)
             log("Target", ident, getattr(target, "ident", None))
 
         _end = _Instrumented._end
@@ -217,10 +224,10 @@ def _mk_ctrl(flavour, flavour_mod):
     class SCtrl(Controller):
         FLAVOUR = flavour
 
-        def __init__(self, target, ident=0, fail_after=None, fail_kind=None, beat=0.02, idle=False, churn=False, slow=0):
+        def __init__(self, target, ident=0, fail_after=None, fail_kind=None, beat=0.02, idle=False, churn=False, slow=0, stubborn=False):
             _probe(ident, slow)
             super().__init__(target)
-            _Instrumented._setup(self, ident, fail_after, fail_kind, beat, idle, churn)
+            _Instrumented._setup(self, ident, fail_after, fail_kind, beat, idle, churn, stubborn)
             log("Target", ident, getattr(target, "ident", None))
 
         _end = _Instrumented._end
